@@ -329,10 +329,8 @@ class C08(Prop):
             "dumps as modelled; non-trivial = distinct content with >= 2 orders")
     assumptions = ["CPython dict/set iteration order is a function of insertion history and hash seed (covered in the theorems by quantifying "
                    "over all rearrangements)", "json.load is the inverse of the modelled printer (layout oracle)"]
-    partial = {"C08_perm_treeinfo_partial": "proved: the INI bytes are a function of the written document modulo section/option order "
-               "(C08_ini_canonical) and every comma list the writer builds is order-independent (C08_treeinfo_platforms / _variants_list "
-               "/ _addons); missing: that TI.serialize of two rearranged trees yields IniEq documents and that success transfers "
-               "(section-by-section analysis of serializeInto) - covered by correspondence on every rearranged order only",
+    partial = {"C08_perm_treeinfo": "full for main_variant = None or the container key of a top-level variant (TI.MainVariantTop); a UID / dashed "
+               "path designating a child is resolved by a first-match scan and is outside the theorem (covered by correspondence)",
                "C08_perm_manifests": "stated on the stored mapping (JEq payloads); that two add-call histories differing in the order of "
                "non-colliding calls build JEq mappings is checked by correspondence (C12 model), not proved",
                "C08_perm_composeinfo": "bytes of successful dumps; C08_repeat for composeinfo (header.version, release.is_layered of layered "
